@@ -16,20 +16,21 @@ static const bool SAN = true;
 static const bool SAN = false;
 #endif
 struct Buf {
-    void *base = nullptr; size_t maplen = 0; char *p = nullptr; size_t bytes = 0; bool sparse = false;
+    void *base = nullptr; size_t maplen = 0; char *p = nullptr; size_t bytes = 0; bool sparse = false, failed = false;
+    static int &map_failures() { static thread_local int n = 0; return n; }
     Buf() {}
     explicit Buf(size_t nbytes, size_t slack_before_guard = 0) { alloc(nbytes, slack_before_guard); }
     Buf(const Buf &) = delete; Buf &operator=(const Buf &) = delete;
     void alloc(size_t nbytes, size_t slack = 0)
     {
         release();
-        bytes = nbytes;
+        bytes = nbytes; failed = false;
         sparse = nbytes >= ((size_t)1 << 26);   // huge extents (strides >= 2^32): a sparse MAP_NORESERVE mapping, only touched pages exist
         if (SAN && !sparse) { base = malloc(nbytes + slack ? nbytes + slack : 1); p = (char *)base + slack; maplen = 0; return; } // (slack: deliberate misalignment of the start; the end stays exact)
         size_t pg = (size_t)sysconf(_SC_PAGESIZE);
         size_t len = ((nbytes + slack + pg - 1) / pg) * pg; if (len == 0) len = pg;
         base = mmap(nullptr, len + pg, PROT_READ | PROT_WRITE, MAP_PRIVATE | MAP_ANONYMOUS | (sparse ? MAP_NORESERVE : 0), -1, 0);
-        if (base == MAP_FAILED) { base = nullptr; abort(); }
+        if (base == MAP_FAILED) { base = nullptr; p = nullptr; if (sparse) { failed = true; map_failures()++; return; } abort(); } // (a sparse arena the system refuses: the case is skipped by the caller, never a verdict)
         mprotect((char *)base + len, pg, PROT_NONE);
         maplen = len + pg;
         p = (char *)base + len - nbytes - slack;
